@@ -57,7 +57,19 @@ def handle_check(prop, tier, seed):
         ga = ["--random", "--seed", str(seed * 1000 + {"debug": 1, "release": 2, "asan": 3}[profile]), "--nprog", str(nprog), "--steps", str(steps),
               "--maxh", "6" if tier == "quick" else "8", "--maxlen", "12", "--profile", emph]
         results.append(H.run_config("%s_%s_rand" % (prop, profile), profile, ga))
-    return H.report(prop, results, tier, seed, t0, assumptions=ASSUME_HANDLES, mc=mcinfo)
+    extra, rc2 = None, 0
+    if prop == "C03":
+        # "stays alive as long as any handle can read it ... released exactly once" also under
+        # concurrent drops and conversions: recorded interleavings judged by AtomicsMonitor
+        # (laws freed_once, no_uaf, copy_after_release)
+        from . import threads as T
+        from . import atomics as A
+        tr = T.run("C03_dfs", T.programs(tier, seed), 25 if tier == "quick" else 100, free_runs=0, random_runs=10 if tier == "quick" else 30, seed=seed)
+        rc2, tcov, nh = A.report(prop, [tr], None, T.ordering_table(tr["trace"]), tier, seed, t0, ASSUME_THREADS, evidence=False)
+        extra = {"concurrent_part": {k: tcov[k] for k in ("programs", "executions", "evaluations", "distinct_nontrivial", "event_counts", "rule")},
+                 "_extra_violations": nh}
+    rc1 = H.report(prop, results, tier, seed, t0, assumptions=ASSUME_HANDLES + (ASSUME_THREADS if prop == "C03" else []), mc=mcinfo, extra_cov=extra)
+    return max(rc1, rc2)
 
 
 ASSUME_CURSORS = [
